@@ -469,7 +469,13 @@ def nontrivial(program):
 # ------------------------------------------------------------------------------------------------
 # Statistics
 # ------------------------------------------------------------------------------------------------
-CLAUSES = ["duration", "end", "explicit", "implicit", "root", "chain-link", "chain-start", "instances", "link-level", "global"]
+CLAUSES = ["duration", "end", "explicit", "implicit", "root", "chain-link", "chain-start", "instances", "link-level", "global", "warm"]
+INSTANCE_CAP = 20000     # failing inputs kept per key (the smallest fingerprints, so that the kept set does not depend on scheduling)
+
+
+def fingerprint(program, mode, key):
+    import hashlib as _h
+    return _h.sha1(json.dumps({"program": program, "mode": mode, "key": key}, sort_keys=True, default=str).encode()).hexdigest()[:12]
 
 
 class Stats:
@@ -482,17 +488,36 @@ class Stats:
         self.skipped = {}
         self.hashes = set()
         self.samples = []
+        self.instances = {}      # key -> {fingerprint: record}   (deterministic families only)
+        self.inst_count = {}     # key -> number of failing inputs
+        self.inst_overflow = set()
+        self.warm_cases = 0
         self.probe = {"flatten_changes_schedule": 0, "flatten_compared": 0, "first_read_relinks": 0, "ties": 0,
                       "negative_starts": 0, "zero_length": 0, "nonleaf_last_ending": 0, "multi_links": 0,
-                      "channel_table_checked": 0, "channel_table_mismatch": {}, "states": {s: 0 for s in STATES}}
+                      "channel_table_checked": 0, "channel_table_mismatch": {}, "states": {s: 0 for s in STATES},
+                      "warm_own_vs_cold_mismatch": 0}
 
-    def fail(self, key, clause, function, witness, observed, required):
+    def fail(self, key, clause, function, witness, observed, required, inst_mode=None):
         size = len(json.dumps(witness, default=str))
         old = self.failures.get(key)
-        if old is None or size < old["_size"]:
+        if old is None or (size, json.dumps(witness, sort_keys=True, default=str)) < (old["_size"], json.dumps(old["witness"], sort_keys=True, default=str)):
             self.failures[key] = {"key": key, "clause": clause, "function": function, "witness": witness,
                                   "observed": observed, "required": required, "replay_args": dict(witness, key=key),
                                   "_size": size}
+        if inst_mode is not None:
+            fp = fingerprint(witness["program"], inst_mode, key)
+            d = self.instances.setdefault(key, {})
+            if fp not in d:
+                d[fp] = {"key": key, "witness": witness, "observed": observed, "required": required}
+                self.inst_count[key] = self.inst_count.get(key, 0) + 1
+                self._trim(key)
+
+    def _trim(self, key):
+        d = self.instances[key]
+        if len(d) > INSTANCE_CAP:
+            for fp in sorted(d)[INSTANCE_CAP:]:
+                del d[fp]
+            self.inst_overflow.add(key)
 
     def skip(self, reason):
         self.skipped[reason] = self.skipped.get(reason, 0) + 1
@@ -511,6 +536,17 @@ class Stats:
         for k, v in o.skipped.items():
             self.skipped[k] = self.skipped.get(k, 0) + v
         self.hashes |= o.hashes
+        self.warm_cases += o.warm_cases
+        for k, d in o.instances.items():
+            mine = self.instances.setdefault(k, {})
+            if k in self.inst_overflow or k in o.inst_overflow:
+                self.inst_count[k] = self.inst_count.get(k, 0) + o.inst_count.get(k, 0)
+                mine.update(d)
+            else:
+                mine.update(d)
+                self.inst_count[k] = len(mine)
+            self._trim(k)
+        self.inst_overflow |= o.inst_overflow
         if len(self.samples) < 8:
             self.samples.extend(o.samples[:2])
         for k, v in o.probe.items():
@@ -549,7 +585,7 @@ def walk_structure(root, tr):
     return out
 
 
-def check_case(program, state, gbuild, gnames, stats, verbose=False):
+def check_case(program, state, gbuild, gnames, stats, verbose=False, det=False):
     """evaluates every clause on one built circuit; returns (number of failures recorded, schedules for the flatten probe)"""
     L()
     witness = {"program": program, "state": state, "G_build": gbuild}
@@ -560,7 +596,7 @@ def check_case(program, state, gbuild, gnames, stats, verbose=False):
         w = dict(witness)
         if g is not None:
             w["G"] = g
-        stats.fail(f"{PROP}:{key}", clause, function, w, observed, required)
+        stats.fail(f"{PROP}:{key}", clause, function, w, observed, required, inst_mode=f"cold:{state}:{gbuild}" if det else None)
         fail.count += 1
     fail.count = 0
 
@@ -765,6 +801,167 @@ def check_case(program, state, gbuild, gnames, stats, verbose=False):
                                          f"durations {list(gnames)}; below: schedule computed from the program alone vs reported, durations {gnames[-1]}",
                               "schedule": sample})
     return fail.count, flat_sched
+
+
+# ------------------------------------------------------------------------------------------------
+# WARM pass: the times the library REPORTS when no memo is cleared between building and reading
+# ------------------------------------------------------------------------------------------------
+HISTORIES = ("listing", "duration-first")
+
+
+def warm_cause_class(program):
+    """cause class of a warm failure, from the program alone: <repetition class>:<position of the sub-circuits>"""
+    best = []            # longest chain of nested repetition counts >= 2
+    behind = [False]
+
+    def rec(items, chain):
+        nonlocal best
+        for i, it in enumerate(items):
+            if it["k"] == "sub":
+                if i > 0:
+                    behind[0] = True
+                c = chain + ([int(it.get("reps", 1))] if int(it.get("reps", 1)) >= 2 else [])
+                if (len(c), max(c, default=0)) > (len(best), max(best, default=0)):
+                    best = c
+                rec(it["items"], c)
+    if "lib" in program:
+        return "library-circuit"
+    root = [int(program["reps"])] if int(program.get("reps", 1)) >= 2 else []
+    best = list(root)
+    rec(program["items"], root)
+    if len(best) >= 2:
+        rc = "nested-repetition(max>=3)" if max(best) >= 3 else "nested-repetition(2x2)"
+    elif len(best) == 1:
+        rc = "repetition>=3" if best[0] >= 3 else "repetition-2"
+    else:
+        rc = "no-repetition"
+    has_sub = program_stats(program)["sub"] > 0
+    pos = "sub-circuit-behind-prefix" if behind[0] else ("sub-circuit-at-start" if has_sub else "no-sub-circuit")
+
+    def barrier_copied(items, copied):
+        return any((it["k"] in BARRIER_LIKE and copied) or (it["k"] == "sub" and barrier_copied(it["items"], True)) for it in items)
+    # barrier-like operations hash by identity (all other operations by value, relation link included): as reference of a
+    # memoised link they behave differently
+    bar = ":with-barrier" if barrier_copied(program["items"], bool(root)) else ""
+    return f"{rc}:{pos}{bar}"
+
+
+class OwnSolver:
+    """solution of the relation equations over the link fields (own recursion, own memo per instance); leaf durations from the
+    strategy fields and the table, durations of composites as given (read from the library with fresh memos)"""
+
+    def __init__(self, table, comp_dur):
+        self.T, self.C = table, comp_dur
+        self._s, self._d = {}, {}
+
+    def dur(self, o):
+        k = id(o)
+        if k not in self._d:
+            if is_composite(o):
+                self._d[k] = self.C[k]
+            else:
+                s = o.duration_strategy
+                n = type(s).__name__
+                self._d[k] = self.T[s.key.name] if n == "GlobalDurationStrategy" else s.duration if n == "FixedDurationStrategy" else self.C[k]
+        return self._d[k]
+
+    def start(self, o):
+        k = id(o)
+        if k in self._s:
+            return self._s[k]
+        link = o.relation
+        if type(link).__name__ == "MultiRelationLink":
+            ref = None
+            for r in link._reference_nodes:
+                if ref is None or self.end(r) > self.end(ref):
+                    ref = r
+        else:
+            ref = link._reference_node
+        if ref is None:
+            v = 0.0
+        else:
+            t = link._relation_type.name
+            v = self.end(ref) if t == "FOLLOWED_BY" else self.start(ref) if t == "JOINED_START" else self.end(ref) - self.dur(o)
+        self._s[k] = v
+        return v
+
+    def end(self, o):
+        return self.start(o) + self.dur(o)
+
+
+def check_warm(program, history, stats, verbose=False, det=True):
+    """build -> [apply_modifiers when something is repeated] -> [circuit.duration] -> circuit.operations -> start/end of every
+    listed operation, with NO memo cleared in between (memos are cleared only before building); the reported values must equal the
+    own solution of the relation equations over the link fields.  Returns the number of failures recorded."""
+    L()
+    say = (lambda *a: print(*a)) if verbose else (lambda *a: None)
+    state = "mod" if program_stats(program)["rep"] > 0 else "none"
+    witness = {"program": program, "history": history}
+    cause = warm_cause_class(program)
+    stats.warm_cases += 1
+
+    def fail(key, clause, function, observed, required):
+        say("  FAIL", key, "| observed:", observed, "| required:", required)
+        stats.fail(f"{PROP}:{key}", clause, function, witness, observed, required, inst_mode=f"warm:{history}" if det else None)
+        return 1
+
+    _TRACK[0] = None
+    common.clear_caches()
+    try:
+        circ = build(program, state, Track())
+    except Exception as e:  # noqa
+        stats.skip(f"program cannot be built: {type(e).__name__}")
+        common.clear_caches()
+        return 0
+    try:
+        if history == "duration-first":
+            circ.duration
+        listed = circ.operations
+        warm = [(o.start_time, o.end_time) for o in listed]
+    except Exception as e:  # noqa
+        common.clear_caches()
+        return fail(f"warm:raises:{type(e).__name__}:{history}:{cause}", "the listing and the times of a built circuit can be read", "start_time",
+                    f"{type(e).__name__}: {str(e)[:160]}", "numbers")
+    # own solution (composite durations: as the library reports them with fresh memos; C04 is judged elsewhere)
+    common.clear_caches()
+    comp_dur, todo, extra = {}, [circ.circuit_structure], []
+    while todo:
+        c = todo.pop()
+        comp_dur[id(c)] = c.duration
+        for n in composite_nodes(c)[2]:
+            if is_composite(n.operation):
+                todo.append(n.operation)
+            elif type(n.operation.duration_strategy).__name__ not in ("GlobalDurationStrategy", "FixedDurationStrategy"):
+                comp_dur[id(n.operation)] = n.operation.duration
+    cold = [(o.start_time, o.end_time) for o in listed]
+    common.clear_caches()
+    solver = OwnSolver(file_table(), comp_dur)
+    try:
+        own = [(solver.start(o), solver.end(o)) for o in listed]
+    except Exception as e:  # noqa
+        stats.skip(f"warm: own solver failed: {type(e).__name__}")
+        return 0
+    stats.n["warm"] += len(listed)
+    if any(not (close(a[0], b[0]) and close(a[1], b[1])) for a, b in zip(own, cold)):
+        stats.probe["warm_own_vs_cold_mismatch"] += 1      # not a memo matter: the cold pass judges it
+        return 0
+    say(f" history {history}; state {state}; cause class {cause}")
+    for i, o in enumerate(listed):
+        say(f"   #{i:2d} {type(o).__name__:22s} reported start {warm[i][0]:7.3f} end {warm[i][1]:7.3f} | own start {own[i][0]:7.3f} end {own[i][1]:7.3f}")
+    for i, o in enumerate(listed):
+        ws, we = warm[i]
+        s, e = own[i]
+        if not close(ws, s):
+            link = o.relation
+            rt = "no-relation" if link_is_none(link) else ("multi-" if type(link).__name__ == "MultiRelationLink" else "") + link._relation_type.name
+            return fail(f"warm:start:{history}:{cause}", "the start time reported through the public API (no memo cleared after building) is the solution of the "
+                        "operation's scheduling relation", "RelationLink.get_start_time / MultiRelationLink.get_start_time (lru_cache)",
+                        {"listed_operation": i, "kind": type(o).__name__, "relation": rt, "reported_start": ws, "reported_end": we}, {"start": s, "end": e})
+        if not close(we, e):
+            return fail(f"warm:end:{history}:{cause}", "the end time reported through the public API (no memo cleared after building) is start + duration of the "
+                        "solution of the operation's scheduling relation", "IDurationComponent.end_time",
+                        {"listed_operation": i, "kind": type(o).__name__, "reported_start": ws, "reported_end": we}, {"start": s, "end": e})
+    return 0
 
 
 def item_at(program, path):
@@ -994,7 +1191,7 @@ def outside_exhaustive_families(program):
     return st["items"] >= 4 and (st["sub"] > 0 or st["rel"] > 0)
 
 
-def run_program(program, mode, gnames, stats, salt=0, count=True):
+def run_program(program, mode, gnames, stats, salt=0, count=True, det=False):
     h = hashlib.blake2b(json.dumps(program, sort_keys=True).encode(), digest_size=8).digest()
     gbuild = gnames[(h[0] + salt) % len(gnames)]
     stats.programs += 1
@@ -1003,7 +1200,7 @@ def run_program(program, mode, gnames, stats, salt=0, count=True):
         stats.nontrivial += 1
     sched = {}
     for state in states_for(program, mode):
-        res = check_case(program, state, gbuild, gnames, stats)
+        res = check_case(program, state, gbuild, gnames, stats, det=det)
         if isinstance(res, tuple):
             sched[state] = res[1]
     if "mod" in sched and "modflat" in sched:
@@ -1024,9 +1221,13 @@ def run_job(job):
             programs = expand_slice(job)
         for program in programs:
             if _DEADLINE[0] is not None and time.time() > _DEADLINE[0]:
-                stats.skip("time budget of the tier exhausted" + (" (exhaustive family)" if job.get("exhaustive") else ""))
+                stats.skip("time budget of the tier exhausted" + (" (deterministic family)" if job.get("det") else ""))
                 continue
-            h, nt = run_program(program, job["mode"], gnames, stats, count=not job.get("hash"))
+            if job.get("pass") == "warm":
+                for history in HISTORIES:
+                    check_warm(program, history, stats, det=True)
+                continue
+            h, nt = run_program(program, job["mode"], gnames, stats, count=not job.get("hash"), det=bool(job.get("det")))
             if nt and job.get("hash") and outside_exhaustive_families(program):
                 stats.hashes.add(h)
     except Exception as e:  # harness problem: make it visible, do not hide it
@@ -1130,6 +1331,26 @@ def expand_slice(job):
         for shape in job["shapes"]:
             for prog in nest_shapes(shape, x, sigma):
                 yield prog
+    elif fam == "prefix":
+        # [a, sub(r)[x, y rel]]: a sub-circuit with an internal relation that does not start at t = 0
+        a = sigma[head[0]]
+        for x in sigma:
+            for y in sigma:
+                for rel in rel_options(1):
+                    for r in (1, 2, 3):
+                        yield {"items": [dict(a), sub([dict(x), with_rel(y, rel)], r)]}
+    elif fam == "nested":
+        # [a, sub(r1)[x, sub(r2)[y, z rel]]] (and, shape 1, the inner sub-circuit first): nested repetition behind a prefix
+        a, x = NESTED_PREFIX[head[0]], NESTED_OUTER[head[1]]
+        for shape in job["shapes"]:
+            for y in [sigma[head[2]]]:
+                for z in sigma:
+                    for rel in rel_options(1):
+                        for r1 in (1, 2, 3):
+                            for r2 in (1, 2, 3):
+                                inner = sub([dict(y), with_rel(z, rel)], r2)
+                                body = [dict(x), inner] if shape == 0 else [inner, dict(x)]
+                                yield {"items": [dict(a), sub(body, r1)]}
     else:
         raise ValueError(fam)
 
@@ -1167,6 +1388,8 @@ def nest_shapes(shape, x, sigma):
         raise ValueError(shape)
 
 
+NESTED_PREFIX = [{"k": "Wait", "q": [0], "d": 1.0}, {"k": "CPhase", "q": [0, 1]}]
+NESTED_OUTER = [{"k": "Wait", "q": [0], "d": 1.0}, {"k": "Wait", "q": [1], "d": 2.0}]
 NEST_SHAPES = ["s(x)", "s(s(x))", "s(x,y)", "y,s(x)", "s(x),y", "root(x,y)"]
 
 
@@ -1295,6 +1518,11 @@ def family_edge():
         {"items": [op("Wait", 0, d=1.0), sub([op("Wait", 1, d=1.0)], 2, rel=[0, "F"])]},
         {"items": [op("Rx180", 0), sub([op("Barrier", [0, 1]), sub([op("Rx180", 0), op("CPhase", [0, 1])], 2), op("Ry90", 1)], 2),
                    op("DispersiveMeasure", 0)], "reps": 2},
+        # unrolled + flattened: an operation that followed a sub-circuit is re-linked behind the next repetition
+        {"items": [sub([op("Wait", 1, d=5.0, ch="FL"), sub([op("Rx180", 0)], 1), op("Rx180", 0)], 2)]},
+        {"items": [op("Hadamard", 6), sub([op("Barrier", [4, 1])], 2), op("Rx90", 6, rel=[1, "S"])], "reps": 2},
+        # a sub-circuit whose explicit relation is dropped changes the predecessor choice of later items
+        {"items": [op("VirtualEmpty", 2, d=5.0, ch="FL"), sub([op("Ry90", 1)], 3, rel=[0, "F"]), op("VirtualPark", 1), op("CPhase", [2, 1])]},
     ]
 
 
@@ -1309,66 +1537,89 @@ def chunks(lst, n):
 
 
 def make_jobs(tier, seed):
+    """deterministic families first (independent of --seed: enumerations and fixed lists, cold pass and warm pass), then the seeded ones"""
     thorough = tier == "thorough"
     rng = random.Random(seed * 7919 + (1 if thorough else 0))
     gn_ex = ["file", "A", "Z"] if not thorough else ["file", "A", "B", "Z"]
     gn_all = ["file", "A", "B", "Z"]
-    jobs, summary = [], []
+    det, seeded, summary = [], [], []
 
-    def add_exhaustive(name, family, alpha, n, headlen, mode, gnames, **kw):
-        sigma = alphabet(alpha)
-        cnt = 0
-        for head in itertools.product(range(len(sigma)), repeat=headlen):
-            jobs.append(dict({"type": "slice", "family": family, "alphabet": alpha, "n": n, "head": list(head), "mode": mode,
-                              "gnames": gnames, "exhaustive": True, "name": name}, **kw))
-            cnt += 1
+    def add_exhaustive(name, family, alpha, n, heads, mode, gnames, warm=False, **kw):
+        for head in heads:
+            job = dict({"type": "slice", "family": family, "alphabet": alpha, "n": n, "head": list(head), "mode": mode,
+                        "gnames": gnames, "det": True, "name": name[:2]}, **kw)
+            det.append(job)
+            if warm:
+                det.append(dict(job, **{"pass": "warm", "name": name[:2] + "w"}))
         summary.append(name)
 
-    # exhaustive families ------------------------------------------------------------------------------------------------
-    a_flat3 = "full" if thorough else "medium"
+    def heads(alpha, k):
+        return list(itertools.product(range(len(alphabet(alpha))), repeat=k))
+
+    a_flat3 = "full" if thorough else "small"
     add_exhaustive(f"X1: ALL flat programs of 1..2 items over alphabet 'full' ({len(alphabet('full'))} operations: Wait d in 0/1/2/5 x channel ALL/MICROWAVE/FLUX, "
                    "Rx180, CPhase, DispersiveMeasure, Barrier on every qubit subset; qubits 0..2 up to renaming) x every relation type to the earlier item",
-                   "flat", "full", 2, 1, "full", gn_all)
-    jobs.append({"type": "slice", "family": "flat", "alphabet": "full", "n": 1, "head": [], "mode": "full", "gnames": gn_all, "exhaustive": True, "name": "X1"})
+                   "flat", "full", 2, heads("full", 1), "full", gn_all, warm=True)
+    add_exhaustive("X1 (one item)", "flat", "full", 1, [()], "full", gn_all, warm=True)
+    summary.pop()
     add_exhaustive(f"X2: ALL flat programs of 3 items over alphabet '{a_flat3}' ({len(alphabet(a_flat3))} operations) x every relation type to every earlier item "
-                   "(28 relation assignments per kind triple), qubits up to renaming", "flat", a_flat3, 3, 2, "lean", gn_ex)
+                   "(28 relation assignments per kind triple), qubits up to renaming (cold pass only: without sub-circuit and repetition no time is evaluated before the "
+                   "last structural change)", "flat", a_flat3, 3, heads(a_flat3, 2), "lean", gn_ex)
     a_imp = "small" if thorough else "tiny"
     n_imp = 5 if thorough else 4
     add_exhaustive(f"X3: ALL relation-free programs of {n_imp} items over alphabet '{a_imp}' ({len(alphabet(a_imp))} operations): implicit predecessor choice "
-                   "with chains of different depth", "implicit", a_imp, n_imp, 2, "lean", gn_ex)
+                   "with chains of different depth", "implicit", a_imp, n_imp, heads(a_imp, 2), "lean", gn_ex, warm=True)
     a_nest = "full" if thorough else "medium"
+    gn_nest = gn_ex if thorough else ["file", "A"]
     add_exhaustive(f"X4: ALL nested programs with <= 3 items in total (operations + sub-circuits), nesting depth <= 2, repetition counts 1..3, shapes {NEST_SHAPES} "
                    f"over alphabet '{a_nest}' ({len(alphabet(a_nest))} operations) x every relation (inside the sub-circuit, to the sub-circuit, of the sub-circuit), "
-                   "states built / unrolled / unrolled+flattened", "nest", a_nest, 3, 1, "full", gn_ex, shapes=NEST_SHAPES)
-
-    # seeded random families -----------------------------------------------------------------------------------------------
-    n_rand = 100000 if thorough else 12000
-    n_struct = 60000 if thorough else 8000
-    rand = [random_program(rng) for _ in range(n_rand)]
-    struct = family_structured(rng, n_struct)
-    for name, progs, mode in (("R1 kinds", family_kinds(), "all"), ("R2 edge", family_edge(), "all"),
-                              ("R3 structured", struct, "full"), ("R4 random", rand, "full"), ("R5 library", family_library(thorough), "all")):
-        for ch in chunks(progs, 50 if name != "R5 library" else 1):
-            jobs.append({"type": "list", "programs": ch, "mode": mode, "gnames": gn_all, "hash": True, "name": name})
+                   "states built / unrolled / unrolled+flattened", "nest", a_nest, 3, heads(a_nest, 1), "full", gn_nest, warm=True, shapes=NEST_SHAPES)
+    a_pre = "medium" if thorough else "small"
+    add_exhaustive(f"X5: ALL programs [a, sub(reps 1..3)[x, y with every relation to x]] over alphabet '{a_pre}' ({len(alphabet(a_pre))} operations): a sub-circuit with an "
+                   "internal relation that does not start at t = 0", "prefix", a_pre, 4, heads(a_pre, 1), "lean", gn_nest, warm=True)
+    nshapes = [0, 1] if thorough else [0]
+    add_exhaustive(f"X6: ALL programs [a, sub(r1)[x, sub(r2)[y, z with every relation to y]]] (thorough: also with the inner sub-circuit first), r1, r2 in 1..3, "
+                   f"a in {len(NESTED_PREFIX)} prefixes, x in {len(NESTED_OUTER)} operations, y, z over alphabet 'tiny' ({len(alphabet('tiny'))} operations): nested "
+                   "repetition behind a prefix", "nested", "tiny", 5, list(itertools.product(range(len(NESTED_PREFIX)), range(len(NESTED_OUTER)), range(len(alphabet("tiny"))))), "lean", gn_nest,
+                   warm=True, shapes=nshapes)
+    for name, progs in (("R1", family_kinds()), ("R2", family_edge()), ("R5", family_library(thorough))):
+        for ch in chunks(progs, 50 if name != "R5" else 1):
+            job = {"type": "list", "programs": ch, "mode": "all", "gnames": gn_all, "hash": True, "name": name, "det": True}
+            det.append(job)
+            det.append(dict(job, **{"pass": "warm", "name": name + "w"}))
     summary.append(f"R1: every operation kind ({len(ALL_KINDS)}) x every relation to two earlier operations, at top level and inside a sub-circuit repeated twice "
                    f"({len(family_kinds())} programs, all four states)")
     summary.append(f"R2: {len(family_edge())} edge programs (empty circuits / sub-circuits, start before the first-added operation, last-ending operation that is no "
                    "relation leaf, deepest-vs-latest predecessor, repeated root)")
-    summary.append(f"R3: {n_struct} seeded programs [a?] sub(reps 1..3)[2..4 items, optional inner sub] [b..] over alphabet 'small'")
-    summary.append(f"R4: {n_rand} seeded random programs of 2..6 items over ALL {len(ALL_KINDS)} operation kinds, qubit pools of 2..4, nesting <= 2, repetitions 1..3, "
-                   "durations 0 / 0.25 / 0.5 / 1 / 2 / 5")
     summary.append(f"R5: {len(family_library(thorough))} library-built repetition-code circuits (construct_repetition_code_circuit_simplified, cycles 1..{7 if thorough else 5}) in all "
                    "four states: link-level oracle and repetition-chain clause only")
-    # exhaustive slices first in round robin with the lists, so that a run cut short still covers every family
-    by_name = {}
-    for j in jobs:
-        by_name.setdefault(j["name"][:2], []).append(j)
-    for lst in by_name.values():
-        rng.shuffle(lst)
-    ordered = []
-    for group in itertools.zip_longest(*by_name.values()):
-        ordered.extend(j for j in group if j is not None)
-    return ordered, summary
+
+    # seeded random families -----------------------------------------------------------------------------------------------
+    n_rand = 100000 if thorough else 6000
+    n_struct = 60000 if thorough else 3000
+    rand = [random_program(rng) for _ in range(n_rand)]
+    struct = family_structured(rng, n_struct)
+    for name, progs in (("R3", struct), ("R4", rand)):
+        for ch in chunks(progs, 50):
+            seeded.append({"type": "list", "programs": ch, "mode": "full", "gnames": gn_all, "hash": True, "name": name})
+    summary.append(f"R3 (seeded): {n_struct} programs [a?] sub(reps 1..3)[2..4 items, optional inner sub] [b..] over alphabet 'small'")
+    summary.append(f"R4 (seeded): {n_rand} random programs of 2..6 items over ALL {len(ALL_KINDS)} operation kinds, qubit pools of 2..4, nesting <= 2, repetitions 1..3, "
+                   "durations 0 / 0.25 / 0.5 / 1 / 2 / 5")
+
+    def round_robin(jobs, shuffler):
+        by_name = {}
+        for j in jobs:
+            by_name.setdefault(j["name"], []).append(j)
+        for lst in by_name.values():
+            shuffler.shuffle(lst)
+        out = []
+        for group in itertools.zip_longest(*by_name.values()):
+            out.extend(j for j in group if j is not None)
+        return out
+    # the warm jobs and the small deterministic families first, then the large enumerations, then the seeded samples
+    first = [j for j in det if j["name"].endswith("w")]
+    rest = [j for j in det if not j["name"].endswith("w")]
+    return round_robin(first, random.Random(0)) + round_robin(rest, random.Random(0)) + round_robin(seeded, rng), summary
 
 
 # ------------------------------------------------------------------------------------------------
@@ -1399,14 +1650,20 @@ def main(argv=None):
     cut = [k for k in total.skipped if k.startswith("time budget")]
     res.evaluations = sum(n.values())
     res.distinct = total.nontrivial + len(total.hashes)
-    res.exhaustive = not any("exhaustive" in k for k in cut) and not any(k.startswith("harness") for k in total.skipped)
+    det_complete = not any("deterministic" in k for k in cut) and not any(k.startswith("harness") for k in total.skipped)
+    res.exhaustive = det_complete
     res.rule = ("build programs (JSON: sequences of add-operation / add-sub-circuit calls; operation kind, qubits, channel, fixed duration, relation "
                 "none / FOLLOWED_BY / JOINED_START / JOINED_END to an earlier item of the same level, sub-circuits with repetition count and nesting <= 2, repetition "
                 "count on the circuit itself) built through DeclarativeCircuit.add; states: as built, after apply_modifiers, after apply_modifiers+flatten, after "
                 "flatten; every built circuit is evaluated under the global duration settings 'file' (repository configuration) and overrides via "
                 f"temporary_override_get_registry_at A={GLOBALS['A']}, B={GLOBALS['B']}, Z={GLOBALS['Z']} (built under one of them, chosen by program hash). "
-                "Times are read after circuit.operations (hand-down) and after clearing the start-time memos. Families: " + " || ".join(summary) +
-                ". 'exhaustive' refers to the families X1..X4 (completely enumerated unless the time budget cut them: see 'skipped'); R1..R4 are lists / seeded samples. "
+                "COLD pass: times are read after circuit.operations (hand-down) and after clearing the start-time memos. WARM pass (deterministic families except X2; "
+                "durations 'file'): memos cleared, build, apply_modifiers when something is repeated, then history 'listing' (circuit.operations, start/end of every listed "
+                "operation) or 'duration-first' (circuit.duration before that) with NO memo cleared; reported values against the own solution of the relation equations. "
+                "Families: " + " || ".join(summary) +
+                ". 'exhaustive' refers to the deterministic families X1..X6, R1, R2, R5 (they do not depend on --seed, run first, and are complete unless the time budget "
+                "cut them: see 'skipped'); every failure record carries 'instances' = the failing inputs of the deterministic families (fingerprints; all of them are "
+                "written to <out>.instances.json). "
                 "Non-trivial = at least two items and at least one relation (explicit or implicit predecessor) or a sub-circuit; distinct = non-trivial programs of "
                 "the exhaustive families (duplicate-free and pairwise disjoint by construction) + distinct hashes of those listed / sampled programs that cannot occur in "
                 "an exhaustive family (>= 4 items with a sub-circuit or an explicit relation); smaller sampled programs are evaluated but not counted.")
@@ -1434,6 +1691,10 @@ def main(argv=None):
          "relation equation of its link, read from the fields _reference_node(s) / _relation_type (MultiRelationLink: first latest-ending member; no reference: 0), applied to "
          "the reported start / end of the referenced operation; reported duration of a leaf = strategy field / explicit table entry of its key; states built / unrolled / "
          "unrolled+flattened / flattened", "bound": bound, "evaluations": n["link-level"]},
+        {"function": "start_time / end_time as reported through the public API (lru_cache of RelationLink / MultiRelationLink.get_start_time)", "contract": "WARM pass: after "
+         "build [-> apply_modifiers] [-> circuit.duration] -> circuit.operations, with no memo cleared since before the build, start and end of every listed operation = own "
+         "recursive solution of the relation equations over the link fields (leaf durations from strategy fields / repository configuration, sub-circuit durations as "
+         f"reported with fresh memos); {total.warm_cases} (program, history) cases", "bound": bound, "evaluations": n["warm"]},
         {"function": "whole schedule", "contract": "as built: the schedule evaluated top-down from the program alone equals the reported one (consistency of the local checks)",
          "bound": bound, "evaluations": n["global"]},
     ]
@@ -1450,9 +1711,20 @@ def main(argv=None):
                        f"zero-length operation readings, {pr['ties']} implicit choices with several equally deep candidates, {pr['multi_links']} MultiRelationLinks", "ok":
          pr["negative_starts"] > 0 and pr["zero_length"] > 0 and pr["multi_links"] > 0},
         {"assumption": f"circuits per state: {pr['states']}", "ok": all(v > 0 for v in pr["states"].values())},
+        {"assumption": f"warm pass: the own solver agrees with the library read with fresh memos ({pr['warm_own_vs_cold_mismatch']} of {total.warm_cases} cases disagree; "
+                       "such cases are left to the cold pass)", "ok": pr["warm_own_vs_cold_mismatch"] == 0},
     ]
-    for f in total.failures.values():
+    all_instances = {}
+    for k, f in total.failures.items():
         f.pop("_size", None)
+        d = total.instances.get(k, {})
+        f["instances"] = {"complete": bool(det_complete and k not in total.inst_overflow), "count": int(total.inst_count.get(k, 0)), "fps": sorted(d)}
+        all_instances.update(d)
+    if args.out:
+        base = args.out[:-5] if args.out.endswith(".json") else args.out
+        os.makedirs(os.path.dirname(os.path.abspath(base)), exist_ok=True)
+        with open(base + ".instances.json", "w") as fh:
+            json.dump({fp: all_instances[fp] for fp in sorted(all_instances)}, fh, indent=0, default=str)
     res.failures = total.failures
     res.skipped = total.skipped
     out = res.write(args.out)
@@ -1470,6 +1742,20 @@ def main(argv=None):
 def replay(path):
     rec, a = common.load_replay(path)
     key = a.get("key") or rec.get("key") or rec.get("id") or rec.get("obligation")
+    if a.get("history"):
+        print(f"replaying {key}")
+        print(" program:", json.dumps(a["program"]))
+        print(f" warm pass, history {a['history']} (memos cleared before the build only)")
+        stats = Stats()
+        check_warm(a["program"], a["history"], stats, verbose=True, det=False)
+        print(" failure keys now:", sorted(stats.failures))
+        if key in stats.failures:
+            print(" observed:", json.dumps(stats.failures[key]["observed"], default=str))
+            print(" required:", json.dumps(stats.failures[key]["required"], default=str))
+            print(f"VIOLATION property={PROP} replay={path}")
+            return 1
+        print(" the recorded failure does not reproduce")
+        return 0
     program, state, gbuild = a["program"], a.get("state", "none"), a.get("G_build", "file")
     gnames = [a["G"]] if a.get("G") else list(GLOBALS)
     print(f"replaying {key}")
